@@ -190,6 +190,14 @@ func docxTable(b *strings.Builder, t Tbl, cnt *counter, blk int) {
 				}
 				b.WriteString("</w:tcPr>")
 				for p := 0; p < g.Np; p++ {
+					if p == 0 && g.Rich { // text and a symbol in one run
+						o.Rich = true
+						fmt.Fprintf(b, "<w:p><w:r><w:t>%s</w:t>", TokText(cnt.next(o)))
+						o.Atom = "sym"
+						fmt.Fprintf(b, `<w:sym w:font="Segoe UI Symbol" w:char="%04X"/></w:r></w:p>`, SymBase+cnt.next(o))
+						o.Atom, o.Rich = "t", false
+						continue
+					}
 					fmt.Fprintf(b, "<w:p><w:r><w:t>%s</w:t></w:r></w:p>", TokText(cnt.next(o)))
 				}
 				b.WriteString("</w:tc>")
